@@ -299,7 +299,77 @@ def gen_case(draw, tier):
             'mixin': draw(st.sampled_from([0, 0, 1, 2]))}
 
 
+def enum_remote_object(tier):
+    for how in ('none', 'known-name', 'both-names', 'explicit', 'unknown-name'):
+        for replace in (False, True):
+            yield {'how': how, 'replace': replace}
+
+
+def run_remote_object(case):
+    """Which definition a proxy ends up with when getRemoteObject is told interfaces by name, by object, or not at all,
+    with an older definition of one interface known locally: known definitions are reused unless replacement is asked for
+    (then the exporter's own, freshly parsed definition counts); an explicitly passed definition needs no introspection."""
+    from twisted.internet import defer
+    from txdbus import interface as I
+    from txdbus import introspection as X
+    from txdbus import objects as O
+    saved = dict(I.DBusInterface.knownInterfaces)
+    out = []
+    try:
+        calc = I.DBusInterface('org.verif.Calc', I.Method('Add', 'ii', 'i'), I.Method('Neg', 'i', 'i'), noRegister=True)
+        extra = I.DBusInterface('org.verif.Extra', I.Method('Ping', '', ''), noRegister=True)
+        Exp = type('Exp', (O.DBusObject,), {'dbusInterfaces': [calc, extra]})
+        xml = X.generateIntrospectionXML('/calc', {'/calc': Exp('/calc')})
+        I.DBusInterface.knownInterfaces.pop('org.verif.Extra', None)
+        old = I.DBusInterface('org.verif.Calc', I.Method('Add', 'i', 'i'))            # known locally, out of date
+        mine = I.DBusInterface('org.verif.Calc', I.Method('Add', 'iii', 'i'), noRegister=True)
+        asked = []
+
+        class _Conn:
+            def introspectRemoteObject(self, busName, path, replace):
+                asked.append(replace)
+                return defer.succeed(X.getInterfacesFromXML(xml, replace))
+        h = O.DBusObjectHandler(_Conn())
+        arg = {'none': None, 'known-name': 'org.verif.Calc', 'both-names': ['org.verif.Calc', 'org.verif.Extra'],
+               'explicit': [mine], 'unknown-name': ['org.verif.Extra']}[case['how']]
+        res = []
+        h.getRemoteObject('org.verif.Peer', '/calc', arg, replaceKnownInterfaces=case['replace']).addBoth(res.append)
+        if len(res) != 1 or not hasattr(res[0], 'interfaces'):
+            return [Disc('remote.getRemoteObject-failed:%s' % case['how'], repr(res))]
+        byname = {i.name: i for i in res[0].interfaces}
+        introspects = case['how'] in ('none', 'both-names', 'unknown-name')
+        if bool(asked) != introspects:
+            out.append(Disc('remote.introspection-%s:%s' % ('missing' if introspects else 'unneeded', case['how']), repr(asked)))
+        if case['how'] == 'explicit':
+            want_add = 'iii'
+        elif case['how'] == 'known-name':
+            want_add = 'i'
+        elif case['how'] == 'unknown-name':
+            want_add = None         # whether the proxy also carries the other introspected interfaces is not asserted
+        else:
+            want_add = 'ii' if case['replace'] else 'i'
+        c = byname.get('org.verif.Calc')
+        if want_add is not None:
+            got = getattr(c.methods.get('Add'), 'sigIn', None) if c is not None else None
+            if got != want_add:
+                out.append(Disc('remote.definition:%s,replace=%s' % (case['how'], case['replace']),
+                                'proxy has Calc.Add(%r), expected Add(%r)' % (got, want_add)))
+        if introspects and 'org.verif.Extra' not in byname:
+            out.append(Disc('remote.introspected-interface-missing:%s' % case['how'], sorted(byname)))
+    except Exception as e:
+        out.append(Disc(exc_key(e, 'remote.exception'), exc_detail(e)))
+    finally:
+        I.DBusInterface.knownInterfaces.clear()
+        I.DBusInterface.knownInterfaces.update(saved)
+    return out
+
+
 SUBCHECKS = [
     Subcheck('roundtrip', run_case, classify, strategy=lambda tier: gen_case(tier),
              n={'quick': 300, 'thorough': 3000}),
+    Subcheck('remote_object', run_remote_object, lambda c: (True, [c['how']]), enumerate=enum_remote_object,
+             shards={'quick': 1, 'thorough': 1},
+             exhaustive_note='getRemoteObject with interfaces given not at all / by known name / by known and unknown name / '
+                             'as an object / by unknown name x replaceKnownInterfaces off and on, an out-of-date definition '
+                             'being known locally'),
 ]
